@@ -40,6 +40,10 @@ def tasks(tier, seed):
                 gap = rnd.choice(["exploitability", "l1_norm", "linf_norm"])
                 out.append({"key": f"n{n}/{comp}/{gap}/K={','.join(map(str, K))}/size={k}", "n": n, "K": K, "k": k,
                             "computer": comp, "gap": gap})
+    for K in F.family(3, tier, seed)[0]:          # hidden games of any class
+        for k in range(3):
+            out.append({"key": f"n3/superadditive_cached/exploitability/K={','.join(map(str, K))}/size={k}/anyclass", "n": 3, "K": K, "k": k,
+                        "computer": "superadditive_cached", "gap": "exploitability", "anyclass": True})
     # consecutive linear steps with NO mask query in between (a cached mask must not go stale)
     for n in (3, 4):
         sizes = list(range(2, n))
@@ -58,7 +62,8 @@ def setup(params, inp, lg):
     n = params["n"]
     ass = []
     for d in (1, 2, 3):
-        ass += F.sa_constraints(_draw(inp, d, n), n, lg)
+        if not params.get("anyclass"):
+            ass += F.sa_constraints(_draw(inp, d, n), n, lg)
     return ass
 
 
